@@ -2,6 +2,7 @@ package server
 
 import (
 	"fmt"
+	"runtime"
 	"strings"
 	"sync"
 	"sync/atomic"
@@ -37,6 +38,16 @@ func dispatchHandlersAndWait(cmdName string, handlers []common.MergeCommandFunc,
 			wg.Add(1)
 			go func(index int, handle common.MergeCommandFunc) {
 				defer wg.Done()
+				// the handlers run outside of the connection goroutine and its recover: a panic
+				// in one of them must fail this part of the command, not the whole process
+				defer func() {
+					if e := recover(); e != nil {
+						buf := make([]byte, 4096)
+						n := runtime.Stack(buf, false)
+						sLog.Infof("handle merge command %v panic: %s:%v", cmdName, buf[:n], e)
+						results[index] = fmt.Errorf("ERR handle command %v failed: %v", cmdName, e)
+					}
+				}()
 				var err error
 				results[index], err = handle(cmds[index])
 				if err != nil {
